@@ -379,6 +379,8 @@ func runC18(c *report.Ctx) {
 		}
 	}
 
+	ruleLedgerPathErrorsPropagate(c)
+
 	// ---- (3) cache repair ----------------------------------------------------------------------------------
 	c.Rule("cache-repair", "a transaction that fills the in-memory keystore cache repairs it on its error edge, with the id the failed transaction produced", 4)
 	rmCached := fn(c, pkgKeystore, "KeystoreManager", "RemoveCachedKeystore")
